@@ -74,6 +74,13 @@ def main(argv):
     for n, r in ((3, 0), (2, 5), (0, 2)):
         a = doe.repeat_center(n, r)
         goals.append(("repeat_center %d %d" % (n, r), "repeat_center_gen %d %d = %s" % (n, r, mat(a))))
+    # pbdesign slices: the size arithmetic for every n, and the tail on the sizes that are powers of two (seed ones((1, 1)))
+    for n in list(range(1, 70)) + [127, 128, 129, 255, 256, 1000]:
+        goals.append(("pbdesign size %d" % n, "pbdesign_size_gen %d = (%d, %d)" % (n, int(n), 4 * (int(n / 4) + 1))))
+    for n in range(1, 34):
+        N = 4 * (int(n / 4) + 1)
+        if N & (N - 1) == 0:
+            goals.append(("pbdesign tail %d" % n, "pbdesign_tail_gen [[1%%Z]] %d %d = %s" % (N.bit_length() - 1, n, mat(doe.pbdesign(n)))))
     # the sieve (sizes straddling squares and multiples of 6)
     for n in list(range(6, 60)) + [120, 121, 122, 168, 169, 170, 288, 289, 290, 1000, 1010, 2010]:
         p = [int(x) for x in doe._primes_from_2_to(n)]
